@@ -38,7 +38,9 @@ PROPS = {
     "C04": P([], "C04", "C04", "order,deque,default,races,deque,reuse", ORD, (2000, 50000)),
     "C05": P([], "C05", "C05", "stale,default,races,budget,groups,reuse", ALL, (1500, 40000)),
     "C06": P([], "C06", "C06", "drops,default,stale,budget,groups,reuse", ALL, (2000, 50000), bombs="drop",
-             trusted_extra=["harness/src/bombs.rs: scenarios with inputs whose destructor panics have their own oracle (self-validating output tokens; memory allocated by the crate is pre-filled) - a panic unwinding out of the crate is outside the Gallina model"]),
+             generated_lemmas=["JoinOrderInst.join_order_ok"],
+             trusted_extra=["tools/build.py extract_joinorder: regular expressions over the arm of JoinAll::poll / TryJoinAll::poll that handles a completed input and over PinSlotMap::remove, listing 'store the output', 'destroy the future', 'bookkeeping' in textual order; JoinPanic.v is a model of its own (panics are outside the executable model)",
+                            "harness/src/bombs.rs: scenarios with inputs whose destructor panics have their own oracle (self-validating output tokens; memory allocated by the crate is pre-filled) - a panic unwinding out of the crate is outside the Gallina model"]),
     "C07": P([], "C07", "C07", "default,drops,races,limits,budget,groups,reuse,zst", "JA,TJA", (2000, 40000), bombs="vec",
              trusted_extra=["harness/src/bombs.rs: scenarios with inputs whose destructor panics have their own oracle (self-validating output tokens; memory allocated by the crate is pre-filled) - a panic unwinding out of the crate is outside the Gallina model"]),
     "C08": P([], "C08", "C08", "default,big,drops,budget,groups,reuse", ALL, (1500, 30000),
